@@ -1,4 +1,5 @@
 import Driver.McCmd
+import Std.Data.HashSet
 import Anysystem.Spec.RefSpec
 /-! Independent oracle: naive enumeration of the reference semantics (all reduced-enabled runs, no
 cache), used by the `mc` sub-command when a scenario asks for it (`refenum`). -/
@@ -85,13 +86,26 @@ structure EnumOut where
   count : Nat := 0
   failed : Bool := false
   capped : Bool := false
+  /-- full identities (in-flight messages in order with their options, timers in order) of the reference states already
+      expanded; used only when the predicates do not look at the depth -/
+  visited : Std.HashSet String := {}
 
-/-- depth-first enumeration of every reduced-enabled run; predicates in `check_state` order -/
+/-- what determines the future of a reference state (the network settings do not change during an enumeration) -/
+def fullKey (topo : List (Nat × List Nat)) (r : RS) : String :=
+  showProj topo r.crashedNodes r.procs [] [] ++ "|" ++
+    ",".intercalate (r.flights.map fun f => showEv (.msg f.m f.src f.dst f.o)) ++ "|" ++
+    ",".intercalate (r.timers.map fun t => showEv (.timer t.proc t.name t.delay))
+
+/-- depth-first enumeration of every reduced-enabled run; predicates in `check_state` order.  With `dedupe` (predicates that
+    do not depend on the depth) a reference state reached again is not expanded again. -/
 partial def refEnum (h : Handler PState) (mode : Mode) (topo : List (Nat × List Nat))
-    (inv goal prune : RS → Nat → Bool) (cap : Nat) (r : RS) (depth : Nat) (acc : EnumOut) : EnumOut :=
+    (inv goal prune : RS → Nat → Bool) (cap : Nat) (r : RS) (depth : Nat) (acc : EnumOut) (dedupe : Bool := false) : EnumOut :=
   if acc.capped || acc.failed then acc else
   if acc.count ≥ cap then { acc with capped := true } else
+  let key := if dedupe then fullKey topo r else ""
+  if dedupe && acc.visited.contains key then acc else
   let acc := { acc with count := acc.count + 1,
+                        visited := if dedupe then acc.visited.insert key else acc.visited,
                         seen := insertSortedStr (showProj topo r.crashedNodes r.procs r.flights r.timers) acc.seen }
   if inv r depth then { acc with failed := true }
   else if goal r depth || prune r depth then acc
@@ -100,7 +114,7 @@ partial def refEnum (h : Handler PState) (mode : Mode) (topo : List (Nat × List
     (allLabels r).foldl (fun acc l =>
       if r.enabledRed mode l then
         match r.step h l with
-        | some r' => refEnum h mode topo inv goal prune cap r' (depth + 1) acc
+        | some r' => refEnum h mode topo inv goal prune cap r' (depth + 1) acc dedupe
         | Option.none => acc
       else acc) acc
 
